@@ -1,5 +1,6 @@
 import TflModel.Model.Wire
 import TflModel.Model.Premade
+import TflModel.Driver.Kfl
 /-! Driver ops `pm.*`: `buildSpec` evaluated on a premade model config given over the wire, printed
 canonically.
 
@@ -16,7 +17,22 @@ canonically.
 Reply: `ERR ValueError` or
 `OK C <cal;cal…> B <block;block…> R <0|1> M <S|A|L<norm><bias>> O <none|nk,lo,hi>` with
 `cal` = `feature,c|p,units,mono,pairs,numBuckets,numKeypoints,lo,hi,clampMin,clampMax,convexity,missing,learned`
-`block` = `L|K|N,inputs(f.u+…),sizes,monos,unimod,edgeworth(m.c.d+…),trapezoid,dominances(a.b+…),lo,hi,normalized,useBias,numTerms,simplex`. -/
+`block` = `L|K|N,inputs(f.u+…),sizes,monos,unimod,edgeworth(m.c.d+…),trapezoid,dominances(a.b+…),lo,hi,normalized,useBias,numTerms,simplex`.
+
+`pm.forward <the 18 tokens of pm.build> kps calW blkW lin comb out xs` evaluates the CONCRETE
+composite `forward g (realise g P w)` (`Model/Premade.lean`) of `g = buildSpec config` on the points
+`xs` with the weights `w` read from a real model:
+* `kps` = input keypoints per feature as the CONFIG gives them (`;`-separated, `_` for a categorical
+  feature); the output calibrator's keypoints are `linspace01` of the model;
+* `calW` = `f.u:kernel:ws:missingOut|…` (one entry per calibrator unit; `ws` = softmax row, `_` when fixed);
+* `blkW` = `T:vals|K:dims:rows:scale:bias|N|…` (one entry per block: all-vertices kernel column in
+  row-major vertex order; KFL rows `(term, dim)` term-major; `N` for the linear block);
+* `lin`, `comb` = `kernel:bias`; `out` = kernel column of the output calibrator (`_` when none);
+* `xs` = points (`;`-separated rows, one raw value per feature).
+Reply: `OK <layersAccept> <trapDistinct> <trapCondFree> <y,…>` or the error of `buildSpec`.
+
+`pm.accept <the 18 tokens of pm.build> kps`: `OK` when `buildSpec` succeeds AND every layer constructor
+accepts (`layersAccept`), `ERR ValueError` when a layer check fails, else the error of `buildSpec`. -/
 namespace Tfl.Driver.Premade
 open Tfl Tfl.Wire Tfl.Premade
 
@@ -109,7 +125,88 @@ def showResult : Except Err LayerGraph → String
   | .ok g => showGraph g
   | .error e => showErr e
 
+/-! ### `pm.forward` -/
+
+def bar (s : String) : List String := if s = "_" || s = "" then [] else s.splitOn "|"
+
+def parseCalW (s : String) : Option ((Nat × Nat) × CalW) :=
+  match s.splitOn ":" with
+  | [fu, k, ws, mo] =>
+    match fu.splitOn "." with
+    | [f, u] => do
+      let f ← f.toNat?; let u ← u.toNat?; let k ← parseRats k; let ws ← parseRats ws; let mo ← parseRat mo
+      pure ((f, u), { kernel := k, ws := ws, missingOut := mo })
+    | _ => none
+  | _ => none
+
+/-- block weights before the lattice sizes are known -/
+inductive RawBlk where
+  | table (vals : List Rat)
+  | kfl (K : List (List (List Rat))) (scale : List Rat) (bias : Rat)
+  | lin
+
+def parseBlkW (s : String) : Option RawBlk :=
+  match s.splitOn ":" with
+  | ["T", vals] => (parseRats vals).map .table
+  | ["K", d, rows, scale, bias] => do
+    let d ← d.toNat?; let rows ← Tfl.Driver.Kfl.parseRats2 rows; let scale ← parseRats scale; let bias ← parseRat bias
+    pure (.kfl (Tfl.Driver.Kfl.unflat d rows) scale bias)
+  | ["N"] => some .lin
+  | _ => none
+
+def RawBlk.toW (sizes : List Nat) : RawBlk → BlkW
+  | .table vals => { table := Table.ofVals sizes vals }
+  | .kfl K scale bias => { kfl := ⟨K, scale⟩, bias := bias }
+  | .lin => {}
+
+def parseLinW (s : String) : Option LinW :=
+  match s.splitOn ":" with
+  | [w, b] => do let w ← parseRats w; let b ← parseRat b; pure { w := w, b := b }
+  | _ => none
+
+/-- the weight assignment read from the wire -/
+def mkAssign (cals : List ((Nat × Nat) × CalW)) (blks : List BlkW) (lin comb : LinW) (out : CalW) : Assign
+  | .cal f u => (cals.lookup (f, u)).getD default
+  | .blk j => blks.getD j default
+  | .lin => lin
+  | .comb => comb
+  | .out => out
+
+def forwardReply (c : ModelConfig) (P : Params) (cals : List ((Nat × Nat) × CalW)) (raw : List RawBlk)
+    (lin comb : LinW) (out : CalW) (xs : List (List Rat)) : String :=
+  match buildSpec c with
+  | .error e => showErr e
+  | .ok g =>
+    let blks := (raw.zip g.blocks).map (fun p => p.1.toW p.2.sizes)
+    let F := realise g P (mkAssign cals blks lin comb out)
+    let lat := g.blocks.filter (fun b => b.kind == .lattice)
+    s!"OK {showBool (layersAccept g P)} {showBool (lat.all trapDistinct)} {showBool (lat.all trapCondFree)} {showRats (xs.map (forward g F))}"
+
+def handleForward (args : List String) : Option String :=
+  match args.splitAt 18 with
+  | (cfg, [kps, calw, blkw, lin, comb, out, xs]) => do
+    let c ← parseConfig cfg
+    let kps ← parseList2 parseRat kps
+    let cals ← (bar calw).mapM parseCalW
+    let raw ← (bar blkw).mapM parseBlkW
+    let lin ← parseLinW lin; let comb ← parseLinW comb; let out ← parseRats out
+    let xs ← parseList2 parseRat xs
+    pure (forwardReply c { kps := kps } cals raw lin comb { kernel := out } xs)
+  | _ => none
+
+def handleAccept (args : List String) : Option String :=
+  match args.splitAt 18 with
+  | (cfg, [kps]) => do
+    let c ← parseConfig cfg
+    let kps ← parseList2 parseRat kps
+    pure (match buildSpec c with
+      | .error e => showErr e
+      | .ok g => if layersAccept g { kps := kps } then "OK" else showErr .valueError)
+  | _ => none
+
 def handlers : List (String × Handler) := [
+  ("pm.forward", handleForward),
+  ("pm.accept", handleAccept),
   ("pm.build", fun args => (parseConfig args).map (fun c => showResult (buildSpec c))),
   -- the model variant with the RTL filing rule before fix b13cb79 (F-C03-c)
   ("pm.buildold", fun args => (parseConfig args).map (fun c => showResult (buildSpecOld c))),
